@@ -117,7 +117,22 @@ def hazards(src, host, kind, start, end, rname, opts, starts):
         if kind == "stmts":
             hz.add("similar_statements_ignore_data_flow")
         names = {n.id for n in inside if isinstance(n, ast.Name) and isinstance(n.ctx, ast.Load)}
-        if (names & written_in_host) or ("self.t" in text and attr_written) or ("G" in names and g_written):
+        if kind == "expr":
+            # the recorded gap: ANOTHER textual occurrence of the expression exists and something it reads is (re)assigned at
+            # or after the first occurrence (in text order; a loop brings later writes before earlier reads).  Without a
+            # second occurrence similar=True has nothing extra to replace.
+            region_nodes = [n for n in ast.walk(host) if isinstance(n, ast.expr) and hasattr(n, "lineno") and off(n) == start and off(n, True) == end]
+            twins = []
+            if region_nodes:
+                want_dump = ast.dump(region_nodes[0])
+                twins = [n for n in ast.walk(host) if isinstance(n, ast.expr) and hasattr(n, "lineno") and n is not region_nodes[0] and ast.dump(n) == want_dump]
+            if twins:
+                first = min([start] + [off(n) for n in twins])
+                later_store = any(isinstance(n, ast.Name) and isinstance(n.ctx, ast.Store) and n.id in names and off(n, True) >= first for n in ast.walk(host))
+                in_loop = any(isinstance(lp, (ast.For, ast.While)) and any(off(lp) <= off(t_) and off(t_, True) <= off(lp, True) for t_ in twins + region_nodes) for lp in ast.walk(host))
+                if later_store or (in_loop and names & written_in_host) or ("self.t" in text and attr_written) or ("G" in names and g_written):
+                    hz.add("similar_ignores_intervening_writes")
+        elif (names & written_in_host) or ("self.t" in text and attr_written) or ("G" in names and g_written):
             hz.add("similar_ignores_intervening_writes")
     if rname == "variable":
         for n in ast.walk(host):
